@@ -93,6 +93,33 @@ def _is_error_return(model, m, f, ret, facts):
     return False
 
 
+_REACHED = {}
+
+
+def _returns_reached_with_numbers(model, name, nparams):
+    """ids of the Return statements of the registered function that some abstract trace reaches when every argument is a number
+    (integer and real runs).  None when the interpreter cannot follow the function."""
+    key = (id(model), name)
+    if key in _REACHED:
+        return _REACHED[key]
+    from ..absint import Interp, Func
+    m, f = model.registered(name)
+    seen = set()
+    ok = True
+    for tag in ('float', 'int'):
+        it = Interp(model)
+        it.trace_returns = seen
+        it.loop_cut = f
+        it.trace_count = 19000         # a probe, not an exploration: at most a thousand traces
+        try:
+            it.run(lambda interp, st, tag=tag: interp.call(Func(m, f), [Sym(tag, 'a%d' % i) for i in range(nparams)]))
+        except (Unmodelled, AnalysisError):
+            ok = False
+            break
+    _REACHED[key] = seen if ok else None
+    return _REACHED[key]
+
+
 def _subterms(v):
     yield v
     if isinstance(v, Atom):
@@ -162,7 +189,14 @@ def _r2(model, res, singles):
                         split.append((at, shim, also, [(a_, t_) for a_, t_ in atoms(r.value.test, truth)]))
                 else:
                     split.append((at, r, also, []))
+            reached = _returns_reached_with_numbers(model, name, len(ps))
             for at, r, also, extra in split:
+                origin = also if also is not None else at
+                if reached is not None and isinstance(origin, ast.Return) and id(origin) not in reached:
+                    # the exit is not taken for numeric arguments at all (an error channel of the coercion: "if failure is not None")
+                    res.ob('R2', name, {'exit': 'return %s' % src(r.value)[:40] if r.value is not None else 'return', 'requires': desc}, True,
+                           'not reached with numeric arguments on any abstract trace')
+                    continue
                 facts = guards.facts_at(m, f, at, no_kill=(var,)) + extra
                 if also is not None:
                     # the path runs through the assignment and then reaches the return: the guards of both hold
